@@ -534,11 +534,27 @@ def quote_path(p):
     return quote(p, safe="!$&'()*+,/:;=@")
 
 
+_REF_CACHE: dict = {}
+
+
+def ref_rules(cfg, rules):
+    """RefRule objects of a map (cached: the same map is probed with many paths)"""
+    key = (id(rules), len(rules), json.dumps(cfg, sort_keys=True))
+    hit = _REF_CACHE.get(key)
+    if hit is not None and hit[0] is rules:
+        return hit[1]
+    refs = [RefRule(i, r, cfg) for i, r in enumerate(rules) if not r["bo"]]
+    if len(_REF_CACHE) > 256:
+        _REF_CACHE.clear()
+    _REF_CACHE[key] = (rules, refs)
+    return refs
+
+
 def reference_check(cfg, rules, adapter, path, method, out, ws=None, lenient_noslash=False):
     """None when `out` (canonical outcome of MapAdapter.match) agrees with the reference reading of
     the rules; else (description, shadowed_by_validation: bool).
     lenient_noslash: do not count 'noslash' admissions towards 405 (used to classify F03b only)."""
-    refs = [RefRule(i, r, cfg) for i, r in enumerate(rules) if not r["bo"]]
+    refs = ref_rules(cfg, rules)
     domain = adapter["server"] if cfg["hm"] else (adapter["sub"] if adapter["sub"] is not None else adapter["server"])
     if any(rr.dom_ok(domain) is None for rr in refs):
         return None
@@ -1028,10 +1044,10 @@ CHECK = Check(
         "known finding F03b: the slash-less admission of a non-strict branch rule is not counted for MethodNotAllowed (negation witnesses match_notfound_any_method_full_false, match_405_full_false)",
         "known finding F03c: SlashRequired / merged-slashes redirect is raised before to_python validation, so the redirect target can be NotFound",
         "match_405_iff_partial additionally assumes the path is not subject to slash merging (the second pass adds the methods of rules that admit the merged path)",
-        "insertion order: proved for arbitrary permutations that the search is None for one order iff for the other, and that the found rule and groups coincide when the specificity order decides between the directly admitting (strict) rules (insertion_order_irrelevant_partial); rules of equal specificity (e.g. <int:x> vs <float:y> at the same place, or two rules with the same pattern) are a genuine tie broken by insertion order - the full-strength statement is OPEN (see Props/C03.lean)",
+        "insertion order: proved for arbitrary permutations that the search is None for one order iff for the other, and that the found rule and groups coincide when the specificity order decides between the directly admitting (strict) rules (insertion_order_irrelevant_partial); rules of equal specificity (e.g. <int:x> vs <float:y> at the same place, or two rules with the same pattern) are a genuine tie broken by insertion order: the hypothesis is shown necessary by insertion_order_irrelevant_full_false (<string> vs <uuid>); deriving decisiveness from a syntactic condition and the non-strict forms stay OPEN (see Props/C03.lean)",
     ],
     trusted_extra=["CPython re / int / float / uuid semantics for the modelled primitives (validated by the streams, not verified)"],
-    quick_budget=8000,
+    quick_budget=4000,
     thorough_budget=30000,
 )
 
